@@ -70,6 +70,12 @@ CHECKS['C16'] = ('itp',
   'Trusts: TLC; harness renderer keeps a blank after each separating ";" and never indents "#" lines; the three biggest shipped files (DNA, > 1200 lines) are checked on their first 1000 lines.', 'DESIGN 3 C16')
 ENGINES['itp'] = ('harness/drivers/itp.py', 'Itp.tla + MC_Itp.tla + Trace_Itp.tla')
 
+CHECKS['C18'] = ('aliasing',
+  'Aliasing.tla: heap-of-cells model of copies, deep copies and live views (atom by index/iteration, residue of a molecule) with assignments and rigid operations; TLC proves Isolation, DeepIsolation, WriteThrough and the write frame for every history of the bounds; every maximal TLC history and TLC-simulated histories of length 40 are replayed on real Molecule/Residue/Atom objects comparing every slot of every live object with the cell value after each step',
+  'All histories of up to 3 (thorough 4) operations over {copy, deep_copy, copy stored by an Alignment, atom view, residue view, assign positions/velocities/ids/resids/names, move, move_to, rotate} on single- and two-residue molecules handed out by a System (11k histories), plus simulated 40-step histories with up to 6 live objects: after each operation every field of every atom of every live object and every geometric centre must equal what the cell model says (changed exactly through the written object, its views and its parent), rigid operations must preserve all pairwise distances and move the centre by exactly the displacement / to the point / not at all, and the System must still hand out the molecule as in the file.',
+  'Trusts: TLC; names are only assigned where the property promises isolation (families of deep copies) and through a molecule or its atom views.', 'DESIGN 3 C18')
+ENGINES['aliasing'] = ('harness/drivers/aliasing.py', 'Aliasing.tla + MC_Aliasing.tla: exhaustive + simulated histories replayed with full state comparison')
+
 PENDING_REASON = 'check not built yet in this round (build in progress; see DESIGN.md Appendix B)'
 
 
